@@ -30,9 +30,10 @@ const (
 	ccTWriteHeld = 3 // the request's Write is parked inside the transport
 	ccTSent      = 4 // hook "cli.roundtrip.sent": between send and recv
 	ccTReplyHeld = 5 // the server has the request, its reply is held back
+	ccTDial      = 6 // inside the dialer called by reconnect during this call
 )
 
-var ccTrigNames = []string{"none", "pre", "loaded", "writeheld", "sent", "replyheld"}
+var ccTrigNames = []string{"none", "pre", "loaded", "writeheld", "sent", "replyheld", "dial"}
 
 // what the harness does at the trigger point
 const (
@@ -116,6 +117,10 @@ type ccCallObs struct {
 	Ntx   int    `json:"ntx"`             // times the scripted server received this call's request
 	Dials int    `json:"dials"`           // dial attempts so far (including the first)
 	IsClose bool `json:"is_close,omitempty"`
+	IsNeg   bool `json:"is_negotiation,omitempty"`
+	ExpectOK bool `json:"expect_ok,omitempty"` // plain call, client open, nothing scripted can fail any more
+	Millis  int64 `json:"ms,omitempty"`
+	Acted   bool  `json:"acted,omitempty"` // the trigger point was reached and the action performed
 }
 
 type ccObs struct {
@@ -189,7 +194,19 @@ func ccCountID(log []clisim.Received, id string) int {
 // ccRun imposes scenario sc on a fresh real client and returns what was observed.
 func ccRun(sc ccScenario, keepEvents bool) (obs ccObs) {
 	w := clisim.NewWorld(sc.plans())
-	dial := func(ctx context.Context) (net.Conn, error) { return w.Dial() }
+	base1, base2 := clisim.ClientGoroutines() // loops leaked by earlier scenarios (stay forever)
+	var dialHook func()
+	var dialHookMu sync.Mutex
+	dial := func(ctx context.Context) (net.Conn, error) {
+		dialHookMu.Lock()
+		f := dialHook
+		dialHook = nil
+		dialHookMu.Unlock()
+		if f != nil {
+			f()
+		}
+		return w.Dial()
+	}
 	opts := []kmipclient.Option{kmipclient.WithDialerUnsafe(dial)}
 	if !sc.Negotiate {
 		opts = append(opts, kmipclient.EnforceVersion(kmip.V1_4))
@@ -232,19 +249,38 @@ func ccRun(sc ccScenario, keepEvents bool) (obs ccObs) {
 			}()
 		}
 		w.Settle(2 * time.Second)
-		obs.LeakRead, obs.LeakWrite = clisim.WaitNoClientGoroutines(2 * time.Second)
+		obs.LeakRead, obs.LeakWrite = clisim.WaitClientGoroutines(base1, base2, 2*time.Second)
 		obs.OpenConns = w.OpenConns()
 		if keepEvents {
 			obs.Events = w.EventLog()
 		}
 	}()
+	if sc.Negotiate {
+		n := 0
+		for _, r := range w.Received() {
+			if r.Op == kmip.OperationDiscoverVersions {
+				n++
+			}
+		}
+		o := ccCallObs{Res: ccROk, Ntx: n, Dials: w.Dials(), IsNeg: true}
+		if !obs.DialOK {
+			o.Res = ccRErr
+			if len(obs.Steps) > 0 { // DialContext panicked
+				o = obs.Steps[0]
+				obs.Steps = nil
+			}
+		}
+		obs.Steps = append(obs.Steps, o)
+	}
 	if !obs.DialOK {
 		return obs
 	}
 	w.Settle(2 * time.Second)
 	ncall := 0
+	closedSoFar := false
 	for _, st := range sc.Steps {
 		if st.Close {
+			closedSoFar = true
 			o := ccCallObs{IsClose: true, Res: ccROk}
 			func() {
 				defer func() {
@@ -264,10 +300,14 @@ func ccRun(sc ccScenario, keepEvents bool) (obs ccObs) {
 		}
 		id := fmt.Sprintf("k%d", ncall)
 		ncall++
+		expectOK := st.Trig == ccTNone && !closedSoFar && ccFutureClean(sc, w.ReqCounts())
+		t0 := time.Now()
 		ctx, cancel := context.WithCancel(context.Background())
 		var actOnce sync.Once
+		acted := false
 		act := func() {
 			actOnce.Do(func() {
+				acted = true
 				switch st.Act {
 				case ccACancel:
 					cancel()
@@ -305,6 +345,10 @@ func ccRun(sc ccScenario, keepEvents bool) (obs ccObs) {
 			w.ArmHoldWrite()
 		case ccTReplyHeld:
 			w.ArmHoldReply()
+		case ccTDial:
+			dialHookMu.Lock()
+			dialHook = act
+			dialHookMu.Unlock()
 		}
 		done := make(chan struct{})
 		var res ccCallResult
@@ -332,10 +376,16 @@ func ccRun(sc ccScenario, keepEvents bool) (obs ccObs) {
 			}
 		}
 		ccSetHook(nil)
+		dialHookMu.Lock()
+		dialHook = nil
+		dialHookMu.Unlock()
 		w.Disarm()
 		w.ReleaseAll() // a held reply is delivered late, after the call has returned
 		cancel()
-		o := ccCallObs{}
+		o := ccCallObs{ExpectOK: expectOK, Millis: time.Since(t0).Milliseconds(), Acted: acted}
+		if acted && st.Act == ccAClose {
+			closedSoFar = true
+		}
 		if hang {
 			o.Res = ccRHang
 		} else {
